@@ -483,6 +483,11 @@ func (c *Ctx) nilResultUse(rule string) {
 						if x.Op == token.MUL && x.X == val {
 							use = "dereferences"
 						}
+					case *ssa.TypeAssert:
+						// the one-result form panics on a nil interface value
+						if x.X == val && !x.CommaOk {
+							use = "asserts the type of"
+						}
 					}
 					if use == "" {
 						continue
@@ -1045,7 +1050,7 @@ func (c *Ctx) redirectorWrites(rule string) {
 			r.Ok(rule, name, "every answer writes the response", c.P.Pos(fn.Pos()), "each way through reaches a write of the response or ends with a component's error")
 		}
 	}
-	if n < 2 {
+	if n < 1 {
 		r.Unknown(rule, "ab/defaults", "redirector", "-", sprintf("expected the shipped redirector's answering methods, found %d", n))
 	}
 }
@@ -1171,7 +1176,16 @@ func (c *Ctx) confirmPairChecked(rule string) {
 		}
 	}
 	isMain := func(v ssa.Value) bool { return pairLookup(v) == main }
-	q := PathQuery{From: main, Cut: func(i ssa.Instruction) bool {
+	// an error value made here (a helper's "does not match" result, inlined) is not nil
+	nonNil := map[ssa.Value]bool{}
+	for _, b := range fn.Blocks {
+		for _, in := range b.Instrs {
+			if mi, ok := in.(*ssa.MakeInterface); ok {
+				nonNil[mi] = true
+			}
+		}
+	}
+	q := PathQuery{From: main, NonNil: nonNil, Cut: func(i ssa.Instruction) bool {
 		call, ok := i.(*ssa.Call)
 		if !ok {
 			return false
@@ -1183,7 +1197,12 @@ func (c *Ctx) confirmPairChecked(rule string) {
 		if rel.Op != token.EQL {
 			return false
 		}
-		// main == confirm
+		// main == confirm (also by a constant-time comparison)
+		if er := f.EqRel(); er.Op == token.EQL {
+			if ex, ey := pairLookup(er.X), pairLookup(er.Y); ex != nil && ey != nil && ex != ey && (ex == main || ey == main) {
+				return true
+			}
+		}
 		lx, ly := pairLookup(rel.X), pairLookup(rel.Y)
 		if lx != nil && ly != nil && lx != ly && (lx == main || ly == main) {
 			return true
@@ -1278,4 +1297,219 @@ func (c *Ctx) storedListInPlace(rule string, scope func(*ssa.Function) bool) {
 	}
 	r.Extra["in_place_sites"] = n
 	r.Ok(rule, "all packages", "stored lists copied before they are edited", "-", sprintf("%d append / in-place list operations examined; none has an accessor's result as its destination (violations are listed individually)", n))
+}
+
+// recoverStartOneAnswer: once the recovery request of an existing account has
+// fired its after-event, the only way to end without an error is the answer
+// every recovery request gets (the redirect with the "mail sent" flash). The
+// "handled" flag of an after-event is not a verdict: an exit on it is an
+// answer (or the lack of one) only existing accounts can produce.
+func (c *Ctx) recoverStartOneAnswer(rule string) {
+	r := c.R
+	fn := c.P.FuncOpt("(*ab/recover.Recover).StartPost")
+	if fn == nil {
+		return
+	}
+	name := FuncName(fn)
+	ev := c.Event("EventRecoverStart")
+	n := 0
+	for _, call := range CallsTo(fn, fnFireAfter) {
+		if k, isC := ConstInt(Arg(call, 1)); !isC || k != ev {
+			continue
+		}
+		n++
+		q := PathQuery{From: call.(ssa.Instruction), Cut: func(i ssa.Instruction) bool {
+			ic, ok := i.(ssa.CallInstruction)
+			return ok && ic.Common().IsInvoke() && ic.Common().Method.Name() == "Redirect"
+		}, GoalP: c.nonErrorReturn}
+		if p := q.Find(); p != nil {
+			r.Bad(rule, name, "FireAfter(EventRecoverStart) ⇒ the common answer", posf(c, p[len(p)-1]), "after the event of an existing account's recovery request the handler can end without an error and without the redirect every request gets: that answer tells the requester the account exists", c.P.DescribePath(p)...)
+		} else {
+			r.Ok(rule, name, "FireAfter(EventRecoverStart) ⇒ the common answer", posf(c, call), "every non-error way on from the after-event ends in the common redirect")
+		}
+	}
+	if n == 0 {
+		r.Info(rule, name, "FireAfter(EventRecoverStart)", "-", "StartPost fires no after-event")
+	}
+}
+
+// statusFailureReported: a handler that learns the outcome of a code check as
+// a status text (totp2fa: validate() hands back Localizef(TxtSuccess) or the
+// text of the refusal) and reports failures to the lock reports every refusal:
+// from where the status is known, each way to a non-error exit has either
+// found the status equal to the success text or passed
+// FireAfter(EventAuthFail). A case that answers one particular refusal (a
+// replayed code) on its own, in front of the general one, is not counted.
+func (c *Ctx) statusFailureReported(rule string) {
+	r := c.R
+	fail := c.Event("EventAuthFail")
+	isSuccessText := func(v ssa.Value) bool {
+		call, _ := CallOf(v)
+		if call == nil || !strings.HasSuffix(Callee(call), ".Localizef") {
+			return false
+		}
+		for _, a := range call.Common().Args {
+			if ld, ok := a.(*ssa.UnOp); ok && ld.Op == token.MUL {
+				if g, isG := ld.X.(*ssa.Global); isG && g.Name() == "TxtSuccess" {
+					return true
+				}
+			}
+		}
+		return false
+	}
+	n := 0
+	for _, fn := range c.P.Funcs {
+		if !c.inRepo(fn) || len(fn.Blocks) == 0 || strings.HasSuffix(pkgOf(fn), "/mocks") {
+			continue
+		}
+		fires := false
+		for _, call := range CallsTo(fn, fnFireAfter) {
+			if k, isC := ConstInt(Arg(call, 1)); isC && k == fail {
+				fires = true
+			}
+		}
+		if !fires {
+			continue
+		}
+		var status ssa.Value
+		for _, b := range fn.Blocks {
+			for _, in := range b.Instrs {
+				bo, ok := in.(*ssa.BinOp)
+				if !ok || (bo.Op != token.EQL && bo.Op != token.NEQ) {
+					continue
+				}
+				switch {
+				case isSuccessText(bo.X):
+					status = bo.Y
+				case isSuccessText(bo.Y):
+					status = bo.X
+				}
+			}
+		}
+		if status == nil {
+			continue
+		}
+		n++
+		name := FuncName(fn)
+		q := PathQuery{Cut: func(i ssa.Instruction) bool {
+			call, ok := i.(ssa.CallInstruction)
+			if !ok || Callee(call) != fnFireAfter {
+				return false
+			}
+			k, isC := ConstInt(Arg(call, 1))
+			return isC && k == fail
+		}, PruneFact: func(f Fact) bool {
+			rel := f.Rel()
+			if rel.Op != token.EQL {
+				return false
+			}
+			if (rel.X == status && isSuccessText(rel.Y)) || (rel.Y == status && isSuccessText(rel.X)) {
+				return true
+			}
+			// the check did not take place: its error was one particular sentinel
+			// ("no second factor enabled")
+			for _, pair := range [][2]ssa.Value{{rel.X, rel.Y}, {rel.Y, rel.X}} {
+				if IsErrorType(pair[0].Type()) && loadOfGlobal(pair[1]) != nil {
+					return true
+				}
+			}
+			return false
+		}, GoalP: c.nonErrorReturn}
+		if si, ok := status.(ssa.Instruction); ok {
+			if _, isPhi := status.(*ssa.Phi); isPhi {
+				q.StartBlock = si.Block()
+			} else {
+				q.From = si
+			}
+		} else {
+			q.StartBlock = fn.Blocks[0]
+		}
+		if p := q.Find(); p != nil {
+			r.Bad(rule, name, "status != success ⇒ FireAfter(EventAuthFail)", posf(c, p[len(p)-1]), "a refusal of the submitted code can be answered without the failure event (the status was not found equal to the success text, and FireAfter(EventAuthFail) was not passed): that failed attempt is not counted towards the lock", c.P.DescribePath(p)...)
+		} else {
+			r.Ok(rule, name, "status != success ⇒ FireAfter(EventAuthFail)", c.P.Pos(fn.Pos()), "every non-error exit follows the success text or the failure event")
+		}
+	}
+	if n == 0 {
+		r.Info(rule, "ab/otp/twofactor", "status texts", "-", "no failure-reporting handler decides on a status text")
+	}
+}
+
+// pendingPIDVerbatim: the account a pending second-factor login is completed
+// for is the account the session names: the key handed to the storage look-up
+// is the session value as it was read (or a user's own PID), never something
+// cut out of it. A value split at a separator names a different account for
+// PIDs that contain the separator.
+func (c *Ctx) pendingPIDVerbatim(rule string) {
+	r := c.R
+	n := 0
+	isSessionRead := func(v ssa.Value) bool {
+		call, idx := CallOf(v)
+		return call != nil && idx == 0 && Callee(call) == fnGetSession
+	}
+	for _, fn := range c.P.Funcs {
+		if !strings.HasPrefix(pkgOf(fn), "ab/otp/twofactor") || len(fn.Blocks) == 0 {
+			continue
+		}
+		for _, call := range Calls(fn) {
+			if Callee(call) != fnLoad {
+				continue
+			}
+			key := Arg(call, len(call.Common().Args)-1)
+			if call.Common().IsInvoke() {
+				key = call.Common().Args[len(call.Common().Args)-1]
+			}
+			bad := ""
+			seen := map[ssa.Value]bool{}
+			var derived func(x ssa.Value, d int) bool
+			derived = func(x ssa.Value, d int) bool {
+				if x == nil || d > 10 || seen[x] {
+					return false
+				}
+				seen[x] = true
+				if isSessionRead(x) {
+					return true
+				}
+				in, ok := x.(ssa.Instruction)
+				if !ok {
+					return false
+				}
+				var buf [8]*ssa.Value
+				for _, op := range in.Operands(buf[:0]) {
+					if *op != nil && derived(*op, d+1) {
+						return true
+					}
+				}
+				return false
+			}
+			var walk func(v ssa.Value, d int)
+			walk = func(v ssa.Value, d int) {
+				if v == nil || d > 8 || bad != "" {
+					return
+				}
+				if isSessionRead(v) {
+					return
+				}
+				if phi, ok := v.(*ssa.Phi); ok {
+					for _, e := range phi.Edges {
+						walk(e, d+1)
+					}
+					return
+				}
+				seen = map[ssa.Value]bool{}
+				if derived(v, 0) {
+					bad = SafeString(v)
+					if ic, _ := CallOf(v); ic != nil {
+						bad = Callee(ic)
+					}
+				}
+			}
+			walk(key, 0)
+			n++
+			r.Check(bad == "", rule, FuncName(fn), "Load(<session pid>) verbatim", posf(c, call), "the account looked up is named by the session value as read (or by a user's own PID)", "the key of the storage look-up is computed from the session's pending PID ("+bad+") instead of being that value: for a PID the computation changes, the login is completed for a different account than the one whose password was checked")
+		}
+	}
+	if n == 0 {
+		r.Info(rule, "ab/otp/twofactor", "Load", "-", "no storage look-up in the second-factor modules")
+	}
 }
